@@ -195,6 +195,7 @@ type lfEngine struct {
 	addrTaken map[string][]*ssa.Function
 	pure      map[*ssa.Function]int // 0 unknown, 1 pure, 2 impure
 	loopsSeen map[string]string     // loop key → termination verdict
+	onHeapStore func(st *lfState, x *ssa.Store, p vPtr, sv lfVal) // observer of stores through pointers (rules that ask the engine about one store)
 	loopPend  map[string]*Loop      // loops with no syntactic ranking argument yet: decided by resolveLoops from sliceLow
 	sliceLow  map[*ssa.Slice]int8   // s[k:] executed: +1 when k ≥ 1 was entailed in every state that reached it, -1 otherwise
 	loopPos   map[string]token.Pos
@@ -1509,6 +1510,9 @@ func (e *lfEngine) step(fr *lfFrame, st *lfState, in ssa.Instruction) {
 			}
 			sv := e.val(fr, st, x.Val)
 			st.heap[key] = sv
+			if e.onHeapStore != nil && e.quiet == 0 {
+				e.onHeapStore(st, x, p, sv)
+			}
 			if e.bits && e.emitting() {
 				if pfx, isT := e.tracked[p.Obj]; isT && p.Path != "" {
 					e.onStore(st, "field", pfx+strings.TrimPrefix(p.Path, "."), e.renderVal(sv), x.Pos(), e.bitsOfVal(sv, typeBits(x.Val.Type())))
@@ -1789,7 +1793,8 @@ func (e *lfEngine) doUnOp(fr *lfFrame, st *lfState, x *ssa.UnOp) {
 				return
 			}
 			v := e.fresh(st, x.Type(), apOf(x.X).String())
-			if e.bits && p.Elem != nil && e.emitting() {
+			// (a load nobody uses — `_ = b[2]`, the bounds-check hint — reads nothing that matters)
+			if e.bits && p.Elem != nil && e.emitting() && x.Referrers() != nil && len(*x.Referrers()) > 0 {
 				// a byte of an output buffer read before anything was stored into it on this
 				// path: whatever an earlier packet left there
 				switch n := p.Elem.Org.Name; {
